@@ -382,3 +382,19 @@ func (g *RG) countTightPaths(s int, d []float64, cap int) (cnt []int, ok bool) {
 	}
 	return cnt, done == n
 }
+
+// unitCopy returns g with every arc weight replaced by 1: the reference for
+// routines that, per their documentation, fall back to UniformCost because
+// the graph value does not expose the weight interface they ask for.
+func (g *RG) unitCopy() *RG {
+	u := newRG(g.N, g.Directed, g.Class+",as-uniform-cost")
+	copy(u.IDs, g.IDs)
+	for i := 0; i < g.N; i++ {
+		for j := 0; j < g.N; j++ {
+			if g.has(i, j) {
+				u.W[i][j] = 1
+			}
+		}
+	}
+	return u
+}
